@@ -27,12 +27,14 @@ def _call(ck, fname, build, max_paths=16):
     return f, paths
 
 
-def _pair_check(ck, rule, inst, site, got, want_re, want_im):
+def _pair_check(ck, rule, inst, site, got, want_re, want_im, norm=None):
     comps = T.as_stack0(got) if got is not None else None
     if comps is None or len(comps) != 2:
         ck.undecided(rule, inst, site, "result is not a (re, im) pair: %r" % (got,))
         return
     for nm, g, w in (("re", comps[0], want_re), ("im", comps[1], want_im)):
+        if norm is not None:
+            g, w = norm(g), norm(w)
         d = lin_diff(g, w)
         ck.check(diff_verdict(d), rule, "%s:%s" % (inst, nm), site, "%s part: %s" % (nm, diff_msg(d)), got=g, want=w)
 
@@ -94,7 +96,7 @@ def run(ck):
             for p in returning(paths, inst):
                 if shape_err_verdict(ck, "C15.R1", inst, paths):
                     # <x|y> = conj(x).y : re = xr.yr + xi.yi ; im = xr.yi - xi.yr
-                    _pair_check(ck, "C15.R1", inst, fi.site(), p.value.term, f(xr, yr) + f(xi, yi), f(xr, yi) - f(xi, yr))
+                    _pair_check(ck, "C15.R1", inst, fi.site(), p.value.term, f(xr, yr) + f(xi, yi), f(xr, yi) - f(xi, yr), norm=vec_dot_normal if form == "vectors" else None)
     inst = "outer_prod"
     with ck.guard("C15.R1", inst):
         fi, paths = _call(ck, "outer_prod", lambda it: ([cx(it, "x", ("n",)), cx(it, "y", ("m",))], {}))
@@ -228,6 +230,8 @@ def run(ck):
                     continue
                 if kind == "real":
                     got, w = p.value.term, want()
+                    if all(len(s_) == 1 for s_ in shapes):
+                        got, w = vec_dot_normal(got), vec_dot_normal(w)  # contractions of vectors: one normal form
                     if got == w:
                         ck.ok("C15.R5", fname, fi.site(), got=got)
                     elif T.ratfun_equal(got, w):
